@@ -4,7 +4,8 @@ use vstd::prelude::*;
 use std::collections::BTreeSet;
 use std::collections::btree_set::Iter as BTreeSetIter;
 use std::slice::Iter;
-use std::ops::Index;
+use std::ops::{Index, IndexMut};
+use std::alloc::Allocator;
 use core::cmp::Ordering;
 use vstd::std_specs::iter::IteratorSpec;
 use vstd::std_specs::core::IndexSpec;
@@ -72,6 +73,17 @@ impl<T> vstd::std_specs::core::IndexSpecImpl<SymbolIndex> for SymbolVec<T> {
 //@  fn index ret=r
 //@  |             ensures *r == self.0@[index.0 as int],
 //@end
+//@impl SYM /^impl < T > SymbolVec < T >/
+//@  fn new ret=r
+//@  |                 ensures r.0@.len() == 0,
+//@  fn push
+//@  |                 ensures final(self).0@ == old(self).0@.push(value),
+//@end
+//@allow external_body SymbolVec::index_mut is the one-line wrapper `self.0.index_mut(index.0)`; Vec's IndexMut::index_mut called as a method has no vstd contract, so the wrapper is given the contract of `&mut self.0[index.0]`
+//@impl SYM /^impl < T > IndexMut < SymbolIndex > for SymbolVec < T >/
+//@  fn index_mut ret=r xbody
+//@  |             ensures *r == old(self).0@[index.0 as int], final(self).0@ == old(self).0@.update(index.0 as int, *final(r)),
+//@end
 
 // ---- ProdVec: text of create_index!(ProdIndex, ProdVec) ---------------------------------------------------------------
 //@macro PRD IDX create_index invoked_in=IDX index=ProdIndex collection=ProdVec
@@ -97,7 +109,7 @@ impl<T> vstd::std_specs::core::IndexSpecImpl<SymbolIndex> for SymbolVec<T> {
 //@allow external_body Production::rhs_symbols (map over res_symbol, which panics on an unresolved symbol): result taken as an uninterpreted function of the production
 //@struct GRM ResolvingAssignment fields=-
 //@end
-//@struct GRM Production fields=rhs
+//@struct GRM Production fields=nonterminal,rhs
 //@end
 /// the resolved symbols of a production's right-hand side (what Production::rhs_symbols returns; R-XBODY: assumed pure)
 pub uninterp spec fn rhs_syms(p: &Production) -> Seq<SymbolIndex>;
@@ -116,13 +128,29 @@ pub uninterp spec fn rhs_syms(p: &Production) -> Seq<SymbolIndex>;
 //@  fn len ret=r
 //@  |                 ensures r == self.0@.len(),
 //@end
+//@impl TRM /^impl < 'a , T > IntoIterator for & 'a TermVec < T >/
+//@  type Item
+//@  type IntoIter
+//@  fn into_iter ret=r
+//@  |                 ensures r.remaining().len() == self.0@.len(),
+//@  |                     forall|i: int| 0 <= i < self.0@.len() ==> *r.remaining()[i] == self.0@[i],
+//@  |                     r.decrease() is Some,
+//@end
 //@macro NTI IDX create_index invoked_in=IDX index=NonTermIndex collection=NonTermVec
 //@struct NTI NonTermIndex derive=Copy,Clone
 //@end
-//@struct GRM Terminal fields=-
+//@struct NTI NonTermVec
+//@end
+//@impl NTI /^impl < T > NonTermVec < T >/
+//@  fn iter ret=r
+//@  |                 ensures r.remaining().len() == self.0@.len(), r.decrease() is Some,
+//@end
+//@struct GRM Terminal fields=idx
+//@end
+//@struct GRM NonTerminal fields=-
 //@end
 
-//@struct GRM Grammar fields=productions,terminals,empty_index
+//@struct GRM Grammar fields=productions,terminals,nonterminals,empty_index
 //@end
 
 /// number of terminals: symbols [0, nterm) are terminals, the rest are non-terminals
@@ -239,6 +267,117 @@ pub proof fn lemma_first_seq_step(fs: Seq<Set<SymbolIndex>>, syms: Seq<SymbolInd
 //@  |             assert(empty == symbol_firsts@.contains(e));
 //@  |             if it.index() + 1 == symbols@.len() { assert(symbols@.skip(it.index() + 1).len() == 0); }
 //@  |         }
+//@end
+
+// ---- C01: first_sets (the FIRST table itself): soundness of the fixpoint -----------------------------------------------
+//@allow assume_specification BTreeSet::extend adds exactly the items of its argument (std dependency)
+//@allow axiom fn into_items of a BTreeSet (the argument type of the one extend call) is its view
+//@allow exec_allows_no_decreases_clause first_sets' `while additions` loop: termination is NOT proved (it needs a measure over all set sizes)
+pub uninterp spec fn into_items<I, T>(iter: I) -> Set<T>;
+pub assume_specification<T: Ord, A: Allocator + Clone, I: IntoIterator<Item = T>> [ <BTreeSet<T, A> as Extend<T>>::extend::<I> ] (s: &mut BTreeSet<T, A>, iter: I)
+    ensures vstd::std_specs::btree::key_obeys_cmp_spec::<T>() ==> final(s)@ == old(s)@.union(into_items::<I, T>(iter));
+pub broadcast axiom fn axiom_into_items_btree_set<T: Ord>(s: BTreeSet<T>)
+    ensures #[trigger] into_items::<BTreeSet<T>, T>(s) == s@;
+
+pub proof fn lemma_union_grows<T>(a: Set<T>, b: Set<T>)
+    ensures a.union(b).len() > a.len() <==> !b.subset_of(a), a.union(b).len() >= a.len(),
+{
+    vstd::set_lib::lemma_len_subset::<T>(a, a.union(b));
+    if b.subset_of(a) {
+        assert(a.union(b) =~= a);
+    } else {
+        let x = choose|x: T| b.contains(x) && !a.contains(x);
+        assert(a.insert(x).subset_of(a.union(b)));
+        vstd::set_lib::lemma_len_subset::<T>(a.insert(x), a.union(b));
+    }
+}
+
+pub open spec fn nsym(g: &Grammar) -> int { nterm(g) + g.nonterminals.0@.len() }
+pub open spec fn lhs_sym(g: &Grammar, p: int) -> int { g.productions.0@[p].nonterminal.0 as int + nterm(g) }
+
+/// what first_sets may assume about the grammar (established by the grammar builder; not proved here)
+pub open spec fn grammar_wf(g: &Grammar) -> bool {
+    &&& nsym(g) <= usize::MAX
+    &&& (g.empty_index.0 as int) < nsym(g)
+    &&& g.empty_index.0 >= nterm(g)
+    &&& forall|t: int| 0 <= t < nterm(g) ==> (#[trigger] g.terminals.0@[t]).idx.0 == t
+    &&& forall|p: int| 0 <= p < g.productions.0@.len() ==> (#[trigger] g.productions.0@[p]).nonterminal.0 < g.nonterminals.0@.len()
+    &&& forall|p: int, i: int| 0 <= p < g.productions.0@.len() && 0 <= i < rhs_syms(&g.productions.0@[p]).len()
+            ==> ((#[trigger] rhs_syms(&g.productions.0@[p])[i]).0 as int) < nsym(g)
+}
+
+/// FS is closed under the productions: FIRST(rhs) is contained in FIRST(lhs) -- every fixpoint of the FIRST equations
+/// satisfies this; a table that is not closed misses lookaheads (the failure mode C01 names).
+pub open spec fn closed_upto(g: &Grammar, fs: Seq<Set<SymbolIndex>>, n: int) -> bool {
+    forall|p: int| 0 <= p < n ==> first_seq(fs, rhs_syms(&g.productions.0@[p]), g.empty_index).subset_of(#[trigger] fs[lhs_sym(g, p)])
+}
+pub open spec fn first_table_ok(g: &Grammar, fs: Seq<Set<SymbolIndex>>) -> bool {
+    &&& fs.len() == nsym(g)
+    &&& forall|t: int| 0 <= t < nterm(g) ==> (#[trigger] fs[t]).contains(SymbolIndex(t as usize))
+    &&& fs[g.empty_index.0 as int].contains(g.empty_index)
+}
+
+//@fn TBL first_sets ret=r foreach attr=verifier::loop_isolation(false) attr=verifier::exec_allows_no_decreases_clause
+//@  |     requires grammar_wf(grammar),
+//@  |     ensures
+//@  |         first_table_ok(grammar, fs_view(&r)), // [C01]
+//@  |         closed_upto(grammar, fs_view(&r), grammar.productions.0@.len() as int), // [C01]
+//@  before 1 "let mut first_sets = SymbolVec::new();"
+//@  |     proof { lemma_symbol_index_is_a_btree_key(); }
+//@  |     broadcast use axiom_into_items_btree_set;
+//@  loop 1 iter=it
+//@  |         invariant
+//@  |             it.seq().len() == nterm(grammar),
+//@  |             forall|i: int| 0 <= i < it.seq().len() ==> *it.seq()[i] == grammar.terminals.0@[i],
+//@  |             fs_view(&first_sets).len() == it.index(),
+//@  |             forall|t: int| 0 <= t < fs_view(&first_sets).len() ==> (#[trigger] fs_view(&first_sets)[t]).contains(SymbolIndex(t as usize)),
+//@  after 1 "let mut new_set = Firsts::new();"
+//@  |         let ghost v0 = fs_view(&first_sets);
+//@  |         proof { assert(*terminal == grammar.terminals.0@[it.index()]); }
+//@  after 1 "first_sets.push(new_set);"
+//@  |         proof { assert(fs_view(&first_sets) =~= v0.push(Set::empty().insert(SymbolIndex(it.index() as usize)))); }
+//@  foreach_loop iter=it1
+//@  |         invariant
+//@  |             it1.seq().len() == grammar.nonterminals.0@.len(),
+//@  |             fs_view(&first_sets).len() == nterm(grammar) + it1.index(),
+//@  |             forall|t: int| 0 <= t < nterm(grammar) ==> (#[trigger] fs_view(&first_sets)[t]).contains(SymbolIndex(t as usize)),
+//@  before 1 "first_sets.push(Firsts::new())"
+//@  |         let ghost v1 = fs_view(&first_sets);
+//@  after 1 "first_sets.push(Firsts::new())"
+//@  |         ; proof { assert(fs_view(&first_sets) =~= v1.push(Set::empty())); }
+//@  before 1 "first_sets[grammar.empty_index].insert(grammar.empty_index);"
+//@  |     let ghost v2 = fs_view(&first_sets);
+//@  after 1 "first_sets[grammar.empty_index].insert(grammar.empty_index);"
+//@  |     proof { assert(fs_view(&first_sets) =~= v2.update(grammar.empty_index.0 as int, v2[grammar.empty_index.0 as int].insert(grammar.empty_index))); }
+//@  loop 2
+//@  |         invariant
+//@  |             first_table_ok(grammar, fs_view(&first_sets)),
+//@  |             !additions ==> closed_upto(grammar, fs_view(&first_sets), grammar.productions.0@.len() as int),
+//@  after 1 "additions = false;"
+//@  |         let ghost fs0 = fs_view(&first_sets);
+//@  loop 3 iter=it3
+//@  |             invariant
+//@  |                 it3.seq().len() == grammar.productions.0@.len(),
+//@  |                 forall|i: int| 0 <= i < it3.seq().len() ==> *it3.seq()[i] == grammar.productions.0@[i],
+//@  |                 first_table_ok(grammar, fs_view(&first_sets)),
+//@  |                 !additions ==> fs_view(&first_sets) == fs0 && closed_upto(grammar, fs0, it3.index() as int),
+//@  after 1 "let lhs_len = first_sets[lhs_nonterm].len();"
+//@  |             let ghost before = fs_view(&first_sets);
+//@  |             let ghost add = rhs_firsts@;
+//@  |             proof {
+//@  |                 assert(*production == grammar.productions.0@[it3.index()]);
+//@  |                 assert(lhs_nonterm.0 == lhs_sym(grammar, it3.index()));
+//@  |                 assert(add == first_seq(before, rhs_syms(production), grammar.empty_index));
+//@  |             }
+//@  after 1 "first_sets[lhs_nonterm].extend(rhs_firsts);"
+//@  |             proof {
+//@  |                 assert(fs_view(&first_sets) =~= before.update(lhs_nonterm.0 as int, before[lhs_nonterm.0 as int].union(add)));
+//@  |                 lemma_union_grows(before[lhs_nonterm.0 as int], add);
+//@  |                 if !(before[lhs_nonterm.0 as int].union(add).len() > before[lhs_nonterm.0 as int].len()) {
+//@  |                     assert(before[lhs_nonterm.0 as int].union(add) =~= before[lhs_nonterm.0 as int]);
+//@  |                     assert(fs_view(&first_sets) =~= before);
+//@  |                 }
+//@  |             }
 //@end
 
 // ---- C03: right-nulled lengths ---------------------------------------------------------------------------------------
